@@ -93,12 +93,16 @@ static std::string step(Line const& l)
         auto e5 = ec::year_month_day{ec::year{y}, ec::month{m}, ec::day{1}} + ec::months{k};
         auto e6 = ec::year_month_day_last{ec::year{y}, ec::month_day_last{ec::month{m}}} + ec::months{k};
         auto e7 = ec::year_month_weekday{ec::year{y}, ec::month{m}, ec::weekday_indexed{ec::weekday{1}, 1}} + ec::months{k};
-        // year_month_weekday_last: members are declared but not defined in the pinned tree (known finding F-C11-ymwl-undefined)
+        auto e8 = ec::year_month_weekday_last{ec::year{y}, ec::month{m}, ec::weekday_last{ec::weekday{1}}} + ec::months{k};
+        auto e10 = ec::year_month_weekday_last{ec::year{y}, ec::month{m}, ec::weekday_last{ec::weekday{1}}};
+        e10 -= ec::months{-k};
+        auto e11 = ec::year_month_weekday{ec::year{y}, ec::month{m}, ec::weekday_indexed{ec::weekday{1}, 1}};
+        e11 += ec::months{k};
         auto e9 = ec::year_month_day{ec::year{y}, ec::month{m}, ec::day{1}};
         e9 -= ec::months{-k};
         auto s1 = sc::year_month{sc::year{y}, sc::month{m}} + sc::months{k};
         auto f  = [](auto const& x) { return t2(int{x.year()}, unsigned{x.month()}); };
-        return out(with_siblings(f(e1), {f(e2), f(e3), f(e4), f(e5), f(e6), f(e7), f(e9)}), f(s1));
+        return out(with_siblings(f(e1), {f(e2), f(e3), f(e4), f(e5), f(e6), f(e7), f(e8), f(e9), f(e10), f(e11)}), f(s1));
     }
     if (l.op == "year_plus") {
         auto y = static_cast<int>(l.i("y"));
@@ -142,6 +146,36 @@ static std::string step(Line const& l)
             rs = s.c_encoding();
         }
         return out(std::to_string(re), std::to_string(rs));
+    }
+    if (l.op == "ymw") {           // sys_days -> year_month_weekday -> sys_days
+        auto z = static_cast<int>(l.i("z"));
+        ec::year_month_weekday e{ec::sys_days{ec::days{z}}};
+        sc::year_month_weekday s{sc::sys_days{sc::days{z}}};
+        ec::year_month_weekday el{ec::local_days{ec::days{z}}};
+        auto f = [](auto const& x, long back) {
+            return std::to_string(int{x.year()}) + "," + std::to_string(unsigned{x.month()}) + "," + std::to_string(x.weekday().c_encoding()) + ","
+                 + std::to_string(x.index()) + "," + proto::fmt_bool(x.ok()) + "," + std::to_string(back);
+        };
+        return out(with_siblings(f(e, ec::sys_days{e}.time_since_epoch().count()), {f(el, ec::local_days{el}.time_since_epoch().count())}),
+            f(s, sc::sys_days{s}.time_since_epoch().count()));
+    }
+    if (l.op == "ymw_days" || l.op == "ymwl_days") {   // (y, m, weekday[index] | weekday[last]) -> sys_days
+        auto y = static_cast<int>(l.i("y"));
+        auto m = static_cast<unsigned>(l.i("m"));
+        auto w = static_cast<unsigned>(l.i("w"));
+        if (l.op == "ymw_days") {
+            auto i = static_cast<unsigned>(l.i("i"));
+            ec::year_month_weekday e{ec::year{y}, ec::month{m}, ec::weekday_indexed{ec::weekday{w}, i}};
+            sc::year_month_weekday s{sc::year{y}, sc::month{m}, sc::weekday_indexed{sc::weekday{w}, i}};
+            return out(std::to_string(ec::sys_days{e}.time_since_epoch().count()) + "," + proto::fmt_bool(e.ok()),
+                std::to_string(sc::sys_days{s}.time_since_epoch().count()) + "," + proto::fmt_bool(s.ok()));
+        }
+        ec::year_month_weekday_last e{ec::year{y}, ec::month{m}, ec::weekday_last{ec::weekday{w}}};
+        sc::year_month_weekday_last s{sc::year{y}, sc::month{m}, sc::weekday_last{sc::weekday{w}}};
+        ec::year_month_day_last edl{ec::year{y}, ec::month_day_last{ec::month{m}}};
+        sc::year_month_day_last sdl{sc::year{y}, sc::month_day_last{sc::month{m}}};
+        return out(std::to_string(ec::sys_days{e}.time_since_epoch().count()) + "," + proto::fmt_bool(e.ok()) + "," + std::to_string(ec::sys_days{edl}.time_since_epoch().count()),
+            std::to_string(sc::sys_days{s}.time_since_epoch().count()) + "," + proto::fmt_bool(s.ok()) + "," + std::to_string(sc::sys_days{sdl}.time_since_epoch().count()));
     }
     if (l.op == "wd_diff") {
         auto e = ec::weekday{static_cast<unsigned>(l.i("a"))} - ec::weekday{static_cast<unsigned>(l.i("b"))};
